@@ -43,6 +43,8 @@ SPECS = {
     # 9: empty-deriving bodies under repetition (C06)
     "nullstar": '<start> ::= ("a"?)* "b"\n',
     "nullrule": '<start> ::= <e>* "b"\n<e> ::= "a" | ""\n',
+    "nulltwice": '<start> ::= <e> <e> "b"\n<e> ::= "a" | ""\n',
+    "nullopen": '<start> ::= ("a"?){2,} "b"\n',
     "nullplus": '<start> ::= ("a"?)+ "b"\n',
     "nullnest": '<start> ::= ("a"*)* "b"\n',
     # 10: open-ended bound
